@@ -40,7 +40,7 @@ def _signal(lock):
 
 WATCHDOG_S = 60.0
 STEP_LIMIT = 20000  # per execution; directed runs on long streams use STEP_LIMIT_DIRECTED
-STEP_LIMIT_DIRECTED = 400000
+STEP_LIMIT_DIRECTED = 120000  # directed runs on long streams (a livelock is reported, well before the watchdog)
 
 
 def msgid(m):
@@ -106,6 +106,7 @@ class Execution:
         self.pruned = False
         self.harness_error = None
         self.log = []  # observation log (for the determinism self-test)
+        self.blocked = []  # who waited for what when a deadlock was declared
 
     # -- threads ---------------------------------------------------------
     def me(self):
@@ -130,7 +131,8 @@ class Execution:
         except BaseException as exc:  # the thread dies, as a real one would
             t.crash = exc
             # (the per-execution scratch directory is not part of the observation)
-            self.log.append(("crash", t.tid, re.sub(r"/x\d+/", "/x#/", repr(exc))))
+            # (... nor is the wording of a RecursionError, which depends on where the limit was hit)
+            self.log.append(("crash", t.tid, "RecursionError" if isinstance(exc, RecursionError) else re.sub(r"/x\d+/", "/x#/", repr(exc))))
         finally:
             sys.settrace(None)
         try:
@@ -254,8 +256,10 @@ class Execution:
             # persistent-set reduction: a thread's first (local) step, spawning a thread and an
             # enabled join commute with every operation of every other thread and neither
             # disable nor are disabled by them, so exploring that one step alone is enough
+            # (starting a thread stops commuting as soon as anybody asks whether a thread is alive: REDUCE_START)
+            local = ("begin", "start", "join") if REDUCE_START[0] else ("begin", "join")
             for a in alts:
-                if a[1] == "ok" and a[0].pending[0] in ("begin", "start", "join"):
+                if a[1] == "ok" and a[0].pending[0] in local:
                     return [a]
         return alts + tout + intr
 
@@ -276,18 +280,34 @@ class Execution:
             return p
         return p[0]
 
+    def _exit_reached(self):
+        """The interpreter exits once the main thread and every non-daemon thread have ended; daemon threads that
+        are still working are killed at that point."""
+        if not self.th or not self.th[0].finished:
+            return False
+        left = [t for t in self.th if t.started and not t.finished]
+        return bool(left) and all(bool(getattr(t.obj, "daemon", False)) for t in left)
+
     def _switch(self, me, finishing=False):
+        if self._exit_reached():
+            self.outcome = "exit-kills-daemon-threads"
+            self._end(me, finishing)
+            return
         alts = self._alts()
         if not alts:
             if all(t.finished or not t.started for t in self.th):
                 self.outcome = "done"
             else:
                 self.outcome = "deadlock"
+                self.blocked = [(t.name, (t.pending[0] if t.pending else None),
+                                 getattr(t.pending[1], "name", None) if t.pending and len(t.pending) > 1 and t.pending[0] == "join" else None)
+                                for t in self.th if t.started and not t.finished]
             self._end(me, finishing)
             return
         self.steps += 1
         if self.steps > (STEP_LIMIT_DIRECTED if self.policy is not None else STEP_LIMIT):
             self.outcome = "steplimit"
+            self.blocked = [(t.name, t.pending[0] if t.pending else None) for t in self.th if t.started and not t.finished]
             self._end(me, finishing)
             return
         i = len(self.trace)
@@ -625,11 +645,17 @@ def ctl_join(self, timeout=None):
     ex.record(("join", t.tid))
 
 
+_REAL_THREAD = {}
+REDUCE_START = [True]
+LIVENESS_OBSERVED = [False]
+
+
 def ctl_is_alive(self):
     ex = Execution.cur
     t = getattr(self, "_ctl_t", None)
     if ex is None or ex.me() is None or ex.abort:
         return bool(t is not None and t.started and not t.finished)
+    LIVENESS_OBSERVED[0] = True
     ex.point(("is_alive", t))
     alive = bool(t is not None and t.started and not t.finished)
     if t is not None and t.finished:
@@ -881,10 +907,28 @@ def install():
     _installed["workers"] = workers
     if hasattr(workers, "Queue"):
         workers.Queue = CtlQueue
-    workers.Worker.start = ctl_start
-    workers.Worker.join = ctl_join
-    workers.Worker.is_alive = ctl_is_alive
-    workers.Worker.ident = property(ctl_ident)
+    # start / join / is_alive / ident are interposed where Worker inherits them (threading.Thread), for Worker
+    # instances only: a Worker subclass - or a changed Worker - that overrides one of them and calls super() still
+    # runs its own code and reaches the controlled primitive through it
+    import threading as _thr
+
+    W = workers.Worker
+    if "start" not in _REAL_THREAD:
+        _REAL_THREAD.update(start=_thr.Thread.start, join=_thr.Thread.join, is_alive=_thr.Thread.is_alive, ident=_thr.Thread.ident)
+
+        def _start(self):
+            return ctl_start(self) if isinstance(self, _installed["workers"].Worker) else _REAL_THREAD["start"](self)
+
+        def _join(self, timeout=None):
+            return ctl_join(self, timeout) if isinstance(self, _installed["workers"].Worker) else _REAL_THREAD["join"](self, timeout)
+
+        def _is_alive(self):
+            return ctl_is_alive(self) if isinstance(self, _installed["workers"].Worker) else _REAL_THREAD["is_alive"](self)
+
+        def _ident(self):
+            return ctl_ident(self) if isinstance(self, _installed["workers"].Worker) else _REAL_THREAD["ident"].fget(self)
+
+        _thr.Thread.start, _thr.Thread.join, _thr.Thread.is_alive, _thr.Thread.ident = _start, _join, _is_alive, property(_ident)
     # synchronisation primitives the module may have imported by name
     for name, ctl in (("Event", CtlEvent), ("Lock", CtlLock), ("RLock", CtlLock)):
         if hasattr(workers, name):
@@ -971,7 +1015,7 @@ def run_once(make, prefix, timeouts=0, interrupts=0, line_mode=False, stop_at_se
 
 def explore(make, check, timeouts=0, interrupts=0, line_mode=False, preemption_bound=None,
             max_executions=None, cleanup=None, max_violations=3, start_stack=None, only_root=False,
-            return_leftover=False, line_codes=None, max_seconds=None):
+            return_leftover=False, line_codes=None, max_seconds=None, _reduce_start=True):
     """Exhaustive DFS by re-execution.
 
     sync mode (line_mode False): all interleavings, no preemption bound, state-cached.
@@ -984,12 +1028,24 @@ def explore(make, check, timeouts=0, interrupts=0, line_mode=False, preemption_b
     cached = not line_mode
     expanded = set() if cached else None
     stack = [[]] if start_stack is None else [list(p) for p in start_stack]
+    if _reduce_start:
+        LIVENESS_OBSERVED[0] = False
+    REDUCE_START[0] = bool(_reduce_start)
     if start_stack is not None and cached:
         raise HarnessError("a split exploration cannot share a state cache")
     while stack:
         prefix = stack.pop()
         ex, ctx = run_once(make, prefix, timeouts, interrupts, line_mode, expanded, line_codes=line_codes)
         st.executions += 1
+        if cached and _reduce_start and LIVENESS_OBSERVED[0]:
+            # somebody asked whether a thread is alive: "start" is no longer a local step; explore again without that reduction
+            if cleanup:
+                cleanup(ctx)
+            try:
+                return explore(make, check, timeouts, interrupts, line_mode, preemption_bound, max_executions, cleanup,
+                               max_violations, start_stack, only_root, return_leftover, line_codes, max_seconds, _reduce_start=False)
+            finally:
+                REDUCE_START[0] = True
         if st.executions == 1 and start_stack is None:
             # determinism is owned, then proved: the first schedule twice, identical observations
             ex2, ctx2 = run_once(make, prefix, timeouts, interrupts, line_mode, None, line_codes=line_codes)
